@@ -18,14 +18,14 @@ def run(tier, seed):
         fs = [forms[(seed + r["id"]) % len(forms)]] if tier == "quick" else forms
         big = n > 12
         for f in fs:
-            jobs += GC.split_patterns({"family": "notadj", "obj": obj, "id": r["id"], "form": f, "nflags": n,
+            jobs += GC.split_patterns({"family": "notadj", "obj": obj, "id": r["id"], "flip": GC.flip_of(seed, r["id"]), "form": f, "nflags": n,
                                        "patterns": pats, "expects": r["notadj"]})
             # not-segmenting: only patterns that are non-adjacent need the solver to tell; all are checked
-            jobs += GC.split_patterns({"family": "notseg", "obj": obj, "id": r["id"], "form": f, "nflags": n,
+            jobs += GC.split_patterns({"family": "notseg", "obj": obj, "id": r["id"], "flip": GC.flip_of(seed, r["id"]), "form": f, "nflags": n,
                                        "patterns": pats, "expects": r["notseg"]})
             if obj["kind"] == "grid" and not big:
                 # the explicit-graph form on the corresponding grid graph must accept exactly the same patterns
-                jobs += GC.split_patterns({"family": "notseg", "obj": obj, "id": r["id"], "form": "array",
+                jobs += GC.split_patterns({"family": "notseg", "obj": obj, "id": r["id"], "flip": GC.flip_of(seed, r["id"]), "form": "array",
                                            "as_graph": True, "nflags": n, "patterns": pats, "expects": r["notseg"]})
     names = {"notadj": "active_vertices_not_adjacent", "notseg": "active_vertices_not_adjacent_and_not_segmenting"}
     run_family(chk, jobs, lambda j: names[j["family"]])
